@@ -125,6 +125,54 @@ impl Core {
                     .unwrap_or_else(|| "panic".into()),
                 )
             }
+            "perr" | "perrv" => {
+                // accept/reject plus, for ASCII sources, the error kind and location
+                let text = text_of(w.get(1)?)?;
+                let value = w[0] == "perrv";
+                let (spec, scheme) = (&self.spec, &self.scheme);
+                Some(
+                    core::no_panic(|| {
+                        let parser = spec.parser(scheme);
+                        let dbg = if value {
+                            match parser.parse_value(&text) {
+                                Ok(_) => return "ok".to_string(),
+                                Err(e) => format!("{e:?}"),
+                            }
+                        } else {
+                            match parser.parse(&text) {
+                                Ok(_) => return "ok".to_string(),
+                                Err(e) => format!("{e:?}"),
+                            }
+                        };
+                        if !text.is_ascii() {
+                            return "err nonascii".to_string();
+                        }
+                        let kind = dbg.find("kind: ").map(|p| {
+                            let t = &dbg[p + 6..];
+                            let end = t.find(|c: char| !c.is_ascii_alphanumeric()).unwrap_or(t.len());
+                            let k = &t[..end];
+                            if k == "EOF" { "eof".to_string() } else { format!("{}{}", k[..1].to_lowercase(), &k[1..]) }
+                        });
+                        let num = |key: &str| -> Option<usize> {
+                            let p = dbg.rfind(key)? + key.len();
+                            let t = &dbg[p..];
+                            let end = t.find(|c: char| !c.is_ascii_digit()).unwrap_or(t.len());
+                            t[..end].parse().ok()
+                        };
+                        match (kind, num("line_number: "), num("span_start: "), num("span_len: ")) {
+                            (Some(k), Some(l), Some(s), Some(n)) => {
+                                if ["parseNetwork", "parseRegex", "parseWildcard", "incompatibleRangeBounds"].contains(&k.as_str()) {
+                                    format!("err {k} * * *")
+                                } else {
+                                    format!("err {k} {l} {s} {n}")
+                                }
+                            }
+                            _ => "err unparsed-debug".to_string(),
+                        }
+                    })
+                    .unwrap_or_else(|| "panic".into()),
+                )
+            }
             "parsev" => {
                 let text = text_of(w.get(1)?)?;
                 let (spec, scheme) = (&self.spec, &self.scheme);
